@@ -1,6 +1,7 @@
 package c13
 
 import (
+	"bytes"
 	"context"
 	"fmt"
 	"net/http"
@@ -311,6 +312,21 @@ func gatewaySide(r *vkit.R, g *vkit.Rand) {
 		}
 	}
 	round("initial", "initial table")
+	// How do names that are not valid UTF-8 reach a limiter server at all? Only inside a JSON body (acquire: metadata.name,
+	// allocate: spec.upstreamCluster), and the decoder replaces invalid bytes by U+FFFD before the name gets to the
+	// rateLimiter: observed here with raw requests to every server (answered = the handler did not panic; net/http would drop
+	// the connection otherwise). The panic of a DIRECT Go call with such a name while leading (srv_leader_call_panicked, a
+	// metrics label) is therefore not reachable from a request.
+	for i, u := range b.urls {
+		body := []byte("{\"kind\":\"RateLimitAcquire\",\"apiVersion\":\"proxy.kubegateway.io/v1alpha1\",\"metadata\":{\"name\":\"up-\xff\xfe-" + fmt.Sprint(i) + "\"},\"spec\":{\"instance\":\"gw-raw\",\"requestID\":1,\"requests\":[{\"flowControl\":\"fc-count\",\"tokens\":1}]}}")
+		resp, err := http.Post(u+"/apis/proxy.kubegateway.io/v1alpha1/ratelimitconditions/x/acquire", "application/json", bytes.NewReader(body))
+		if err != nil {
+			r.Count("gw_raw_non_utf8_name_connection_dropped", 1)
+			continue
+		}
+		resp.Body.Close()
+		r.Count("gw_raw_non_utf8_name_requests_answered", 1)
+	}
 
 	moves := r.N(2, 5)
 	for m := 0; m < moves; m++ {
